@@ -5,6 +5,7 @@ from hypothesis import strategies as st
 
 from checks import _simfut as F
 from checks import _simutil as U
+from sim import wire
 from vlib.harness import hyp_part
 
 SERIAL = os.environ.get("VERIF_TIER") == "quick"   # heavily loaded machine: forked pool is slower than one process
@@ -13,55 +14,85 @@ TITLE = "Requests with a timeout always finish in bounded time"
 LEVEL = "exploration"
 ENGINE = "sim"
 TECHNIQUE = ("model-based generation of server behaviours (Hypothesis) over the real Session/ResponseFuture/ResultSet on a "
-             "deterministic simulated network with a virtual clock; deadline oracle on the virtual clock")
+             "deterministic simulated network with a virtual clock; deadline oracle on the virtual clock; server answers "
+             "can be scheduled into the same event-loop iteration as the client-timeout timer")
 RULE = ("A case is a history: 1-3 fake nodes (optionally with every stream id taken = busy pool), a finite request timeout "
-        "(via the execution profile or the execute_async argument), 0-2 speculative executions, a scripted retry policy and, "
+        "(via the execution profile or the execute_async argument), 0-2 speculative executions, a scripted retry policy, a "
+        "simple or a prepared (bound) statement and, "
         "per page of a 1-3 page result, the behaviour of the server for each successive attempt: silent, answer after the "
-        "deadline, answer after a fraction of the timeout, one of 7 retryable errors, close the connection.  Later pages are "
+        "deadline, answer at once / after a fraction of the timeout / AT THE DEADLINE INSTANT (the answer is handed to the "
+        "event loop in the same iteration as, and just before, the due client-timeout timer; executor threads run after "
+        "both), one of 7 retryable errors, close the connection; for a prepared statement also UNPREPARED (at once, after "
+        "half the timeout, at the deadline instant) with the driver's re-PREPARE then answered with the id (same three "
+        "timings), not at all, after the deadline, by an error or by closing the connection, the re-sent EXECUTE meeting "
+        "the rest of the script.  Later pages are "
         "fetched after a generated pause through ResponseFuture.start_fetching_next_page, ResultSet.fetch_next_page or "
         "iteration from a client thread; a later-page fetch that FAILED (error, connection loss, timeout) is tried again "
         "0-2 times, each try a request of its own.  Oracle: on the virtual clock, timeout + 0.045 s (the driver's own 3 x 0.01 s re-arm "
         "slack) after each (page) request started the future has an outcome; an OperationTimedOut is never delivered before "
-        "the timeout has elapsed since that (page) request started.  Non-trivial: at least one attempt met a silent or late "
-        "server.  Distinct by case digest.")
+        "the timeout has elapsed since that (page) request started.  Non-trivial: at least one attempt (EXECUTE/QUERY or "
+        "re-PREPARE) met a silent or late server, or an answer was really delivered at the deadline instant of the request "
+        "still in flight.  Distinct by case digest.")
 ASSUMPTIONS = ["network, clock, executor and event loop are simulated (sim/); Cluster, Session, pools, connections, "
                "ResponseFuture, ResultSet and policies are the real classes",
                "query plans are finite (fixed plan over the 1-3 nodes)",
                "pre-emption only at blocking operations (part blocking) / additionally at every lock operation and clock read (part locks)",
-               "bounded time is measured on the virtual clock the future itself reads"]
+               "bounded time is measured on the virtual clock the future itself reads",
+               "the check replaces the simulated connection class's create_timer for the client-timeout timer of the request "
+               "under test only (same Timer object and firing time); it exists to release deadline-instant answers first, "
+               "which is the order a reactor iteration has (read sockets, then service timers)",
+               "a deadline-instant answer is sent only if no outcome has been delivered since it was scheduled (it belongs "
+               "to the request still in flight); the fake node answers UNPREPARED only to EXECUTE of the prepared id and "
+               "returns that same id from the re-PREPARE"]
 
 EPS = 0.045
 TIMEOUTS = [0.05, 0.2, 1.0, 3.0]
 
 
-def s_case(gran):
-    action = st.one_of(
+def _s_case(gran, bound):
+    errs = st.tuples(st.just("err"), st.sampled_from(sorted(F.ERRORS))).map(list)
+    base = [
         st.just(["silent"]), st.just(["silent"]),
         st.tuples(st.just("late"), st.sampled_from([0.01, 0.1, 1.0])).map(list),
-        st.tuples(st.just("rows"), st.sampled_from([0.0, 0.0, 0.5, 0.9])).map(list),
-        st.tuples(st.just("err"), st.sampled_from(sorted(F.ERRORS))).map(list),
+        # answered at once / after a fraction of the timeout / at the very instant the client timeout is due (the event
+        # loop reads the answer, then runs the timer, before any executor thread gets to run)
+        st.tuples(st.just("rows"), st.sampled_from([0.0, 0.0, 0.5, 0.9, "deadline"])).map(list),
+        errs,
         st.just(["close"]),
-    )
+    ]
+    # prepared statement only: the node has forgotten the statement (UNPREPARED) and the driver's re-PREPARE is answered
+    # with the id (at once / after half the timeout / at the deadline instant), not at all, late, by an error or by a close
+    prep = st.one_of(st.just(["ok", 0.0]), st.just(["ok", 0.0]), st.just(["ok", 0.5]),
+                     st.just(["ok", "deadline"]), st.just(["ok", "deadline"]),
+                     st.just(["silent"]), st.tuples(st.just("late"), st.sampled_from([0.01, 1.0])).map(list),
+                     st.just(["close"]), errs)
+    unprep = st.tuples(st.just("unprep"), st.sampled_from([0.0, 0.0, 0.5, "deadline"]), prep).map(list)
+    action = st.one_of(*(base + ([unprep, unprep] if bound else [])))
     dec = st.tuples(st.sampled_from(["retry", "retry", "next_host", "next_host", "rethrow", "ignore"]),
                     st.sampled_from([None, "ONE", "QUORUM"])).map(list)
     # a page script: what the server does with the 1st, 2nd, ... attempt for this page (then silent)
     page = st.lists(action, min_size=0, max_size=3)
-    good_page = st.tuples(st.lists(st.tuples(st.just("err"), st.sampled_from(sorted(F.ERRORS))).map(list), max_size=1),
+    good_page = st.tuples(st.lists(errs, max_size=1),
                           st.just([["rows", 0.0]])).map(lambda t: t[0] + t[1])
-    failing = st.one_of(st.tuples(st.just("err"), st.sampled_from(sorted(F.ERRORS))).map(list), st.just(["close"]),
-                        st.just(["silent"]))
+    failing = st.one_of(errs, st.just(["close"]), st.just(["silent"]))
     # a later page whose fetch fails (error the policy rethrows once its script is used up / connection loss /
     # timeout) and whose retried fetch meets a silent or late server
     failing_page = st.tuples(failing, st.lists(action, max_size=1)).map(lambda t: [t[0]] + t[1])
-    pages = st.one_of(
+    options = [
         st.tuples(good_page, failing_page).map(list),
         st.tuples(good_page, good_page, failing_page).map(list),
         st.lists(page, min_size=1, max_size=1),
         st.tuples(good_page, page).map(list),
         st.tuples(good_page, good_page, page).map(list),
         st.lists(page, min_size=1, max_size=3),
-    )
+    ]
+    if bound:
+        # a page whose first attempt is answered UNPREPARED; what follows the re-prepare is generated as usual
+        reprep_page = st.tuples(unprep, st.lists(action, max_size=2)).map(lambda t: [t[0]] + t[1])
+        options += [st.tuples(reprep_page).map(list), st.tuples(good_page, reprep_page).map(list)]
+    pages = st.one_of(*options)
     return st.fixed_dictionaries({
+        "stmt": st.just("bound" if bound else "simple"),
         "warm": st.sampled_from([0, 0, 1, 2, 3, 5, 7, 9, 10, 11]),
         "hosts": st.integers(1, 3),
         "busy": st.one_of(st.just([]), st.just([]), st.just([]), st.lists(st.booleans(), min_size=3, max_size=3)),
@@ -78,6 +109,10 @@ def s_case(gran):
         "tape": st.lists(st.integers(0, 3), max_size=30 if gran == "locks" else 6),
         "gran": st.just(gran),
     })
+
+
+def s_case(gran):
+    return st.one_of(_s_case(gran, False), _s_case(gran, True))
 
 
 def _show(ev):
@@ -123,15 +158,103 @@ def _run(case, ctx, sim):
         if ctx._failures:
             return
 
+    bound = case.get("stmt", "simple") == "bound"
+    ps = None
+    if bound:
+        # prepared before the pools are made busy and before the scripted behaviour starts (default node: knows it)
+        with ctx.driver(["C15.prepare"]):
+            ps = sim.call(session.prepare, F.USER_Q)
+            sim.settle()
+        if ps is None:
+            return
+    qid = ps.query_id if bound else None
+
     pos = {}
     seen_pages = []
-    met = {"silent": 0, "late": 0}
+    met = {"silent": 0, "late": 0, "deadline": 0}
+    outs = []
+    box = {}
+    reprep = {"unprepared": 0, "prepare": 0}
+    prep_next = []
+    # answers that arrive at the very instant the client timeout of the request under test is due: handed to the
+    # event loop immediately before the timer (one loop iteration reads sockets, then services timers; executor
+    # threads run afterwards).  [(outcomes delivered when the answer was scheduled, what, fn)]
+    at_deadline = []
+    deadline_ran = {"n": 0}
+
+    # sim's create_timer, plus: the due client-timeout timer of the request under test first releases at_deadline
+    cc = cluster.connection_class
+    orig_create_timer = cc.create_timer
+
+    def create_timer(timeout, callback):
+        from cassandra.connection import Timer
+        fn = getattr(callback, "func", callback)
+        owner = getattr(fn, "__self__", None)
+        if getattr(fn, "__name__", "") != "_on_timeout" or owner is None or owner is not box.get("fut_obj"):
+            return orig_create_timer(timeout, callback)
+        tm = Timer(timeout, callback)
+        net.timers.append(tm)
+
+        def fire():
+            if not tm.canceled:
+                todo, at_deadline[:] = list(at_deadline), []
+                for n_ev, what, send in todo:
+                    # only while the request the answer belongs to is still the one in flight
+                    if outs and len(outs[0].events) == n_ev:
+                        deadline_ran["n"] += 1
+                        ctx.label("answer-at-deadline-instant:%s" % what)
+                        send()
+            net.loop_call(lambda: tm.finish(sim.world.now))
+        sim.world.call_at(tm.end, fire, "conn-timer")
+        return tm
+    cc.create_timer = staticmethod(create_timer)
+
+    def when_(when, what, send):
+        """the node sends at once / after a fraction of the timeout / at the deadline instant"""
+        if when == "deadline":
+            met["deadline"] += 1
+            at_deadline.append((len(outs[0].events) if outs else 0, what, send))
+        elif when == 0.0:
+            send()
+        else:
+            F.later(sim, t * when, send)
+
+    def is_user(req):
+        if bound:
+            return req["op"] == "EXECUTE" and req.get("id") == qid
+        return F.is_user(req)
+
+    def answer_prepare(node, conn, req):
+        reprep["prepare"] += 1
+        p = prep_next.pop(0) if prep_next else ["ok", 0.0]
+        ctx.label("re-prepare:%s" % (p[0] if p[0] != "ok" else "ok@%s" % p[1]))
+
+        def send_prepared():
+            if not conn.is_closed and not conn.srv_closed:
+                node.reply(conn, req, "RESULT", wire.result_prepared(req["version"], qid, [], [], ()))
+        if p[0] == "ok":
+            when_(p[1], "PREPARED", send_prepared)
+        elif p[0] == "silent":
+            met["silent"] += 1
+        elif p[0] == "late":
+            met["late"] += 1
+            F.later(sim, t + p[1], send_prepared)
+        elif p[0] == "err":
+            U.answer(node, conn, req, p[1])
+        elif p[0] == "close":
+            return ("close",)
+        else:
+            raise ValueError(p)
+        return ("drop",)
 
     def rows_for(i):
         return [[10 * i + j, "p%dr%d" % (i, j)] for j in range(2)]
 
     def user(node, conn, req):
-        if not F.is_user(req):
+        if bound and box.get("armed") and req["op"] == "PREPARE" and req.get("query") == F.USER_Q \
+                and not conn.is_control_connection:
+            return answer_prepare(node, conn, req)
+        if not is_user(req):
             return None
         ps = req.get("paging_state")
         i = 0 if ps is None else int(ps[2:].decode())
@@ -154,10 +277,16 @@ def _run(case, ctx, sim):
             F.later(sim, t + act[1], send_rows)
             return ("drop",)
         if act[0] == "rows":
-            if act[1] == 0.0:
-                send_rows()
-            else:
-                F.later(sim, t * act[1], send_rows)
+            when_(act[1], "rows", send_rows)
+            return ("drop",)
+        if act[0] == "unprep":
+            reprep["unprepared"] += 1
+            prep_next.append(act[2])
+
+            def send_unprepared():
+                if not conn.is_closed and not conn.srv_closed:
+                    node.reply_error(conn, req, "unprepared", "unknown prepared statement", id=qid)
+            when_(act[1], "UNPREPARED", send_unprepared)
             return ("drop",)
         if act[0] == "err":
             U.answer(node, conn, req, act[1])
@@ -172,22 +301,29 @@ def _run(case, ctx, sim):
         if b:
             F.make_busy(sim, session, cluster, nd, cap)
 
-    outs = []
+    if bound:
+        stmt = ps.bind(())
+        stmt.is_idempotent = case["idempotent"]
+        stmt.fetch_size = 2
+    else:
+        stmt = SimpleStatement(F.USER_Q, is_idempotent=case["idempotent"], fetch_size=2)
 
     def on_create(fut):
-        q = getattr(fut.query, "query_string", None)
-        if q == F.USER_Q:
+        if fut.query is stmt:
+            box["fut_obj"] = fut
             outs.append(F.Outcome(sim, fut))
     session.add_request_init_listener(on_create)
-
-    stmt = SimpleStatement(F.USER_Q, is_idempotent=case["idempotent"], fetch_size=2)
+    box["armed"] = True
     kw = {"timeout": t} if case["timeout_via"] == "arg" else {}
     which = {"n": 0}
+    mark = {"unprepared": 0, "ran": 0}
 
     def deadline_check(start, first):
         """advance to start+t+EPS; True when an outcome was delivered in the window"""
         out = outs[0]
         before = which["n"]
+        # since the previous (page) request was judged
+        unprep_before, ran_before = mark["unprepared"], mark["ran"]
         end = start + t + EPS
         if sim.world.now < end:
             sim.advance(end - sim.world.now)
@@ -203,6 +339,11 @@ def _run(case, ctx, sim):
                 if free and any(busy[free[0] + 1:]):
                     # an attempt went out to a free host; a speculative attempt then meets a busy pool
                     feat.append("later-host-busy")
+        mark["unprepared"], mark["ran"] = reprep["unprepared"], deadline_ran["n"]
+        if reprep["unprepared"] > unprep_before:
+            feat.append("after-unprepared")
+        if deadline_ran["n"] > ran_before:
+            feat.append("answer-at-deadline-instant")
         if not evs:
             # diagnosis only: when (if ever) does it finish?
             sim.advance(10.0)
@@ -319,7 +460,11 @@ def _run(case, ctx, sim):
                     sim.call(fut.start_fetching_next_page)
             res = deadline_check(start, False)
     ctx.label("pages=%d" % len(pages), "access=%s" % case["access"], "spec=%d" % case["spec"],
-              "timeout=%s" % t, "busy" if any(busy) else "not-busy")
+              "timeout=%s" % t, "busy" if any(busy) else "not-busy", "stmt=%s" % ("bound" if bound else "simple"))
+    if reprep["unprepared"]:
+        ctx.label("unprepared-answered")
+    if reprep["prepare"]:
+        ctx.label("re-prepare-sent")
     if len(seen_pages) > 1:
         ctx.label("reached-later-page")
         if any(pos.get(i, 0) > len(pages[i]) or any(a[0] in ("silent", "late") for a in pages[i][:pos.get(i, 0)])
@@ -329,7 +474,7 @@ def _run(case, ctx, sim):
         ctx.label("retry-consulted")
     if refetched["n"]:
         ctx.label("refetch-after-failed-fetch")
-    ctx.nontrivial(met["silent"] + met["late"] >= 1)
+    ctx.nontrivial(met["silent"] + met["late"] + deadline_ran["n"] >= 1)
 
 
 def parts(tier):
